@@ -7,9 +7,11 @@
   contract (limb i ≤ 2·m·(2^52−1), top limb ≤ 2·m·(2^48−1)), `P` the constant `TheCurve.p`.
 -/
 import GocoinV.Proofs.C08_Field
+import GocoinV.Proofs.C08_Primes
+import GocoinV.Proofs.C08_TabAll
 
 namespace GocoinV.Props.C08
-open GocoinV.C08 GocoinV.Gen.Field5x52
+open GocoinV.C08 GocoinV.Gen.Field5x52 GocoinV.Gen
 
 /-- `Field.SetAdd`: for ALL limb vectors within magnitudes m1, m2 (m1+m2 ≤ 32) no limb wraps around,
     the value of the result is exactly the sum of the values, and its magnitude is m1+m2. -/
@@ -35,5 +37,58 @@ theorem negate_spec (a : Fe) (m : Nat) (ha : a.mag m) (hm : m ≤ 31) :
   negate_val a m ha hm
 
 example : (negate ⟨5, 0, 0, 0, 0⟩ 1).val + 5 = 4 * P := by decide
+
+/-- `Field.Normalize`: for ALL limb vectors of magnitude ≤ 32 (every limb ≤ 64·(2^52−1)) the result has
+    canonical limbs (52/52/52/52/48 bits) and its value is exactly `value mod p` — in particular < p, also on
+    the edge where the low 256 bits lie in [p, 2^256) (the `t0 ≥ 0xFFFFEFFFFFC2F` branch). -/
+theorem normalize_spec (r : Fe) (h : r.mag 32) :
+    (normalize r).val = r.val % P ∧ (normalize r).canon :=
+  normalize_val r h
+
+example : (normalize ⟨0xFFFFEFFFFFC2F, 0xFFFFFFFFFFFFF, 0xFFFFFFFFFFFFF, 0xFFFFFFFFFFFFF, 0xFFFFFFFFFFFF⟩).val = 0 := by decide
+
+/-- The field characteristic written in `secp256k1.go` (`TheCurve.p`, regenerated) is prime
+    (Pratt certificate through Mathlib's `lucas_primality`; powers evaluated in the kernel). -/
+theorem p_prime : Nat.Prime P := by
+  rw [P_eq]; exact secp_p_prime
+
+/-- The group order written in `secp256k1.go` (`TheCurve.Order`, regenerated) is prime. -/
+theorem n_prime : Nat.Prime CurveConsts.order := by
+  have h : CurveConsts.order = 0xFFFFFFFFFFFFFFFFFFFFFFFFFFFFFFFEBAAEDCE6AF48A03BBFD25E8CD0364141 := by decide
+  rw [h]; exact secp_n_prime
+
+theorem pts_getD (l : List (List Nat)) (i : Nat) (hi : i < l.length) :
+    (pts l).getD i none = ptOfLimbs (l.getD i []) := by
+  simp [pts, List.getD_eq_getElem?_getD, hi]
+
+/-- EVERY entry of the regenerated table `pre_g` (all 4096): entry i is `G + i·(2G)`, i.e. the odd multiple
+    (2i+1)·G, computed with the reference affine group law `GocoinV.Secp` by repeated addition. -/
+theorem preG_spec (i : Nat) (hi : i < 4096) :
+    ptOfLimbs (Tables.preGAt i) = addSteps (Secp.dbl Secp.G) Secp.G i := by
+  have hlen : Tables.preGAll.length = 4096 := by decide +kernel
+  have hhead : (pts Tables.preGAll).head? = some Secp.G := by decide +kernel
+  have := chain_spec (Secp.dbl Secp.G) Secp.G (pts Tables.preGAll) preG_chain hhead i
+    (by simp [pts, hlen, hi])
+  rw [pts_getD _ _ (by omega)] at this
+  exact this
+
+/-- EVERY entry of `pre_g_128` (all 4096): entry i is `2^128·G + i·(2·2^128·G)` = (2i+1)·2^128·G, where
+    2^128·G is 128 reference doublings of G. -/
+theorem preG128_spec (i : Nat) (hi : i < 4096) :
+    ptOfLimbs (Tables.preG128At i) = addSteps (Secp.dbl g128) g128 i := by
+  have hlen : Tables.preG128All.length = 4096 := by decide +kernel
+  have hhead : (pts Tables.preG128All).head? = some g128 := by decide +kernel
+  have := chain_spec (Secp.dbl g128) g128 (pts Tables.preG128All) preG128_chain hhead i
+    (by simp [pts, hlen, hi])
+  rw [pts_getD _ _ (by omega)] at this
+  exact this
+
+/-- The comb table `prec` (64 rows × 16, all 1024 entries): row 0 starts at G; inside a row every entry is
+    the previous one plus the row's first entry B_j (so the row is B_j, 2B_j, …, 16B_j); row j+1 starts at the
+    last entry of row j (B_{j+1} = 16·B_j); nothing is left over. Hence prec[j][i] = (i+1)·16^j·G. -/
+theorem prec_spec : precRowsOK 64 Secp.G (pts Tables.precAll) = true := prec_rows
+
+/-- `fin` is minus the sum of the 64 row bases, −Σ_j 16^j·G (the correction `ECmultGen` adds last). -/
+theorem fin_spec : ptOfLimbs Tables.fin = Secp.neg (headsSum 64 (pts Tables.precAll) none) := fin_neg_sum
 
 end GocoinV.Props.C08
